@@ -312,7 +312,8 @@ def vendor_ridealong(config, P):
     vb = config["vendor"]
     kind, stages = config["kind"], config["stages"]
     m = Module()
-    m.domains.o = ClockDomain("o")
+    on_ = config.get("o_name", "o") if kind in ("async", "reset") else "o"       # (any name, the primitives' private ones included)
+    m.domains += ClockDomain(on_)
     m.domains.i = ClockDomain("i")
     if kind == "ff":
         w = max(1, config["width"])
@@ -333,11 +334,11 @@ def vendor_ridealong(config, P):
         ports = [i, o]
     elif kind == "async":
         i, o = Signal(name="i"), Signal(name="o")
-        m.submodules.dut = cdc.AsyncFFSynchronizer(i, o, o_domain="o", stages=stages, async_edge=config["async_edge"])
+        m.submodules.dut = cdc.AsyncFFSynchronizer(i, o, o_domain=on_, stages=stages, async_edge=config["async_edge"])
         ports = [i, o]
     elif kind == "reset":
         i = Signal(name="arst")
-        m.submodules.dut = cdc.ResetSynchronizer(i, domain="o", stages=stages)
+        m.submodules.dut = cdc.ResetSynchronizer(i, domain=on_, stages=stages)
         ports = [i]
     else:
         dut = cdc.PulseSynchronizer("i", "o", stages=stages)
@@ -346,11 +347,22 @@ def vendor_ridealong(config, P):
     with warnings.catch_warnings():
         warnings.simplefilter("ignore")
         try:
-            rtlil.convert(m, platform=vendors.make(vb["platform"]), ports=[Value_cast(p) for p in ports])
+            from amaranth.hdl import ClockSignal
+            text = rtlil.convert(m, platform=vendors.make(vb["platform"]),
+                                 ports=[Value_cast(p) for p in ports] + [ClockSignal(on_), ClockSignal("i")])
         except Exception as e:
             last = traceback.extract_tb(e.__traceback__)[-1].filename
             raise Violation("vendor_primitive_refused", -1, dict(vb, kind=kind, stages=stages, raised=type(e).__name__,
                                                                  msg=str(e)[:200], where=last.split("amaranth/")[-1]))
+    # whatever cells the platform substitutes, those with a clock input are clocked by the output domain's clock: a constant there
+    # means the stages never see an edge
+    import re
+    for mm in re.finditer(r"^\s*cell (\\\S+) (\S+)\n(.*?)^\s*end$", text, re.M | re.S):
+        for pin in ("C", "clk", "CLK"):
+            c = re.search(r"^\s*connect \\" + pin + r" (\S+)", mm.group(3), re.M)
+            if c and re.fullmatch(r"1'[01x]", c.group(1)):
+                raise Violation("vendor_primitive_clock_tied_off", -1, dict(vb, kind=kind, cell=mm.group(1), pin=pin, net=c.group(1),
+                                                                            o_domain=on_))
     P["vendor_" + vb["platform"]] = 1
     if vb["castable"] and kind == "ff":
         P["vendor_value_castable"] = 1
